@@ -306,12 +306,52 @@ func (r *Run) finish() int {
 	if r.assumptions == nil {
 		ev["assumptions"] = []string{}
 	}
+	dir := filepath.Join(Root(), "evidence")
+	if os.Getenv("VERIF_EVIDENCE_APPEND") != "" {
+		// a further tier of the same check (another engine run by ./check for this property): fold this
+		// run's coverage into the evidence the first tier wrote
+		if old, err := os.ReadFile(filepath.Join(dir, r.Prop+".json")); err == nil {
+			var prev map[string]interface{}
+			if json.Unmarshal(old, &prev) == nil {
+				pc, _ := prev["coverage"].(map[string]interface{})
+				if pc != nil {
+					num := func(v interface{}) int64 {
+						f, _ := v.(float64)
+						return int64(f)
+					}
+					tiers, _ := pc["further_tiers"].(map[string]interface{})
+					if tiers == nil {
+						tiers = map[string]interface{}{}
+					}
+					tiers[r.Engine] = cov
+					pc["further_tiers"] = tiers
+					pc["evaluations"] = num(pc["evaluations"]) + r.evaluations
+					pc["distinct_nontrivial"] = num(pc["distinct_nontrivial"]) + int64(len(r.distinct)) + r.distinctBulk
+					if rule, ok := pc["rule"].(string); ok {
+						pc["rule"] = rule + " || further tier " + r.Engine + ": " + r.rule
+					}
+					if sm, ok := pc["samples"].([]interface{}); ok && len(r.samples) > 0 {
+						pc["samples"] = append(sm, r.samples[0])
+					}
+					prev["violations"] = num(prev["violations"]) + int64(len(r.violSeen))
+					pw, _ := prev["wall_s"].(float64)
+					prev["wall_s"] = pw + float64(int(time.Since(r.start).Seconds()*100))/100
+					if as, ok := prev["assumptions"].([]interface{}); ok {
+						for _, a := range r.assumptions {
+							as = append(as, a)
+						}
+						prev["assumptions"] = as
+					}
+					ev = prev
+				}
+			}
+		}
+	}
 	b, err := json.MarshalIndent(ev, "", " ")
 	if err != nil {
 		fmt.Printf("HARNESS-ERROR evidence does not marshal: %v\n", err)
 		return ExitHarness
 	}
-	dir := filepath.Join(Root(), "evidence")
 	os.MkdirAll(dir, 0o755)
 	if os.Getenv("VERIF_NO_EVIDENCE") == "" {
 		if err := os.WriteFile(filepath.Join(dir, r.Prop+".json"), append(b, '\n'), 0o644); err != nil {
